@@ -695,6 +695,54 @@ def conv_race(rng, T):
     return {"kind": "conv_race", "class": c["py"], "attr": f["attr"], "fn": f["name"], "texts": texts, "hot": "to_value|_missing_", "hot_budget": rng.choice([6, 20])}
 
 
+def set_race(rng, T):
+    """C11 flavour: two threads assign stepped numbers through the same class-level descriptor / converter (two instances of one class, or two
+    classes sharing the function through a base class or mix-in), with thread switches between any two bytecodes of the write path, repeats
+    of the same value, and values the receiver reports in between"""
+    from .props.c11 import SPEC
+    cands = {}
+    for c in T["classes"]:
+        for f in c["fns"]:
+            if f["put"] and f["name"] in SPEC:
+                cands.setdefault(f["name"], []).append((c["py"], f["attr"]))
+    fname = rng.choice(sorted(cands))
+    a = rng.choice(cands[fname])
+    b = rng.choice(cands[fname])
+    step, d = SPEC[fname]
+
+    def val():
+        r = rng.random()
+        k = rng.randint(-60, 60)
+        base = float(k * step)
+        if r < 0.4:
+            return base
+        if r < 0.6:
+            return base + float(step) * rng.choice([0.25, 0.5, 0.75, 0.49, 0.51])
+        if r < 0.75:
+            return int(base)
+        return round(rng.uniform(-80, 120), rng.choice([1, 2, 3]))
+    pool = [val() for _ in range(4)]
+    # values a receiver may report that are not on the grid the library writes on (real receivers do: FMFREQ=93.55 in logs/)
+    offgrid = {"FMFREQ": ["93.55", "87.55", "100.05"], "AMFREQ": ["531", "999", "1035"], "MAXVOL": ["7.5", "12.0"]}.get(fname, ["-30.25", "1.2", "0.1"])
+    ops = []
+    for (cls, attr) in (a, b):
+        o = []
+        for _ in range(rng.randint(2, 7)):
+            if rng.random() < 0.2:
+                # the receiver reports a value (possibly off the library's grid, as real receivers do: 93.55 MHz)
+                o.append(["report", fname, rng.choice(offgrid + ["-30.5", "16.5", "Auto"])])
+            else:
+                o.append(["set", attr, fname, rng.choice(pool) if rng.random() < 0.7 else val()])
+        ops.append(o)
+    if rng.random() < 0.4:
+        ops[rng.randrange(2)].insert(0, ["report", fname, rng.choice(offgrid)])
+    if rng.random() < 0.6 and ops[0] and ops[1]:
+        first = next((x for x in ops[0] if x[0] == "set"), None)
+        if first:
+            ops[1].insert(0, ["set", b[1], fname, rng.choice(pool)])
+    return {"kind": "set_race", "classes": [a[0], b[0]], "ops": ops, "hot": "__set__|to_str|number_to_string_with_stepsize", "hot_budget": rng.choice([6, 20, 40])}
+
+
 def api_close_race(rng, T):
     """C16 flavour: YncaApi.close() from a second thread at a random moment of (or after) initialize() against a healthy small receiver"""
     spec = api_init(rng, T)
